@@ -58,6 +58,8 @@ type Ctx struct {
 	sites   int
 	cg      *callGraph
 	spill   map[*ssa.Alloc]string
+	canon   map[ssa.Value]string // reference-tree names of renamed variables (canon.go)
+	canonSt canonStats
 }
 
 func shortPkg(path string) string {
@@ -148,6 +150,7 @@ func load(repo, tier string) (*Ctx, error) {
 		}
 	}
 	sort.Slice(c.ModFns, func(i, j int) bool { return c.ModFns[i].String() < c.ModFns[j].String() })
+	c.canon, c.canonSt = buildCanon(c)
 	c.cg = buildCallGraph(c)
 	return c, nil
 }
